@@ -517,6 +517,25 @@ def _norm_arg(s):
     return s.lower() if s in ("Wahr", "Falsch") else s
 
 
+def _could_take_as_argument(aliases, units, i):
+    """is there a declaration whose pattern reaches unit i with a placeholder (the units before it matching its pattern)?"""
+    for al in aliases:
+        if len(al) <= i or al.toks[i][0] != "p":
+            continue
+        ok = True
+        for tok, u in zip(al.toks[:i], units[:i]):
+            if tok[0] == "w":
+                if not (u.is_word and u.text == tok[1]):
+                    ok = False
+                    break
+            elif u.form == "kw":
+                ok = False
+                break
+        if ok:
+            return True
+    return False
+
+
 def gen_sites(rng, pop, nsites):
     aliases = pop.aliases()
     if not aliases:
@@ -571,7 +590,7 @@ def gen_sites(rng, pop, nsites):
         if text in seen:
             continue
         seen.add(text)
-        if any(u.is_word and u.text in single and i in slot_at for i, u in enumerate(units)):
+        if any(u.is_word and u.text in single and i in slot_at and _could_take_as_argument(aliases, units, i) for i, u in enumerate(units)):
             pop.skipped_word_call += 1
             continue
         best_a, ncand = resolve(aliases, units, True)
